@@ -1,4 +1,133 @@
-From Coq Require Import ZArith String List.
-From FV.C04 Require Import Text Model.
+(* C04 — AVS UCD write -> read is exact for mesh, nodal and elemental data.
+   Statements only.  gen/UcdCfg.v (ELEMENT_TYPES, the writer's row binding
+   mode) is regenerated from the tree under test on every run. *)
+From Coq Require Import ZArith String List Ascii Bool.
+Import ListNotations.
+From FV.C04 Require Import Text Model Proofs Corr.
+From FV.C04.gen Require Import UcdCfg.
+
+Section Statement.
+  (* float64 values with Python's repr / float(); trusted, exercised bit-exactly
+     by the correspondence check *)
+  Variable V : Type.
+  Variable vprint : V -> str.
+  Variable vparse : str -> option V.
+  Hypothesis vparse_vprint : forall v, vparse (vprint v) = Some v.
+  Hypothesis vprint_token : forall v, tokenb (vprint v) = true.
+
+  (* Full statement.  For every well-formed mesh (arbitrary ids and storage
+     order, any mix of fixed-arity first-order types and tet2, any number and
+     width of 2-D variables whose id set is the mesh's, in any order):
+     reading what was written yields exactly the id-keyed specification
+     `first_order m` -- provided the writer binds data rows by id. *)
+  Theorem C04_ucd_roundtrip :
+    cfg_ok UcdCfg.cfg = true ->
+    forall m : mesh V, wf V element_types m = true ->
+      roundtrip V vprint vparse element_types UcdCfg.cfg m = Ok (first_order V element_types m).
+  Proof. intros H m Hwf. apply roundtrip_ok; auto. Qed.
+
+  (* What holds for the writer as it is (whatever its binding mode): the same
+     conclusion when every variable is stored in the mesh's own id order. *)
+  Theorem C04_ucd_roundtrip_aligned :
+    forall m : mesh V, wf V element_types m = true -> aligned V element_types m = true ->
+      roundtrip V vprint vparse element_types UcdCfg.cfg m = Ok (first_order V element_types m).
+  Proof. intros m Hwf Ha. apply roundtrip_ok; auto. Qed.
+
+  (* nothing dropped: every 2-D variable of the input is a variable of the output *)
+  Theorem C04_nothing_dropped :
+    forall m : mesh V, wf V element_types m = true ->
+      cfg_ok UcdCfg.cfg = true \/ aligned V element_types m = true ->
+      exists u, roundtrip V vprint vparse element_types UcdCfg.cfg m = Ok u
+        /\ (forall v, In v (m_nodal V m) -> nv_2d V v = true -> In (nv_name V v) (map fst (u_nodal V u)))
+        /\ map fst (u_elemental V u) = map (ev_name V) (filter (ev_2d V) (m_elemental V m))
+        /\ u_nodes V u = m_nodes V m.
+  Proof.
+    intros m Hwf Hmode. exists (first_order V element_types m). split; [apply roundtrip_ok; auto|].
+    split; [|split; [|reflexivity]].
+    - intros v Hv H2. simpl. apply upsert_keys. rewrite map_map. simpl.
+      unfold nodal_2d. rewrite map_map. simpl.
+      apply in_map_iff. exists v. split; [reflexivity|]. apply filter_In. auto.
+    - simpl. unfold elemental_2d. rewrite !map_map. reflexivity.
+  Qed.
+
+  (* every value is bound to the id it was written for *)
+  Theorem C04_values_by_id :
+    forall (m : mesh V) name tb id,
+      In (name, tb) (elemental_2d V element_types m) -> In id (elem_ids V element_types m) ->
+      exists tb', In (name, tb') (u_elemental V (first_order V element_types m))
+                  /\ lookup id tb' = Some (get id tb).
+  Proof.
+    intros m name tb id Hv Hid. exists (reindex V (elem_ids V element_types m) tb). split.
+    - simpl. apply in_map_iff. exists (name, tb). auto.
+    - apply lookup_reindex. exact Hid.
+  Qed.
+
+  Theorem C04_nodal_values_by_id :
+    forall (m : mesh V) name tb id,
+      In (name, tb) (nodal_2d V m) -> In id (map fst (m_nodes V m)) ->
+      lookup id (reindex V (map fst (m_nodes V m)) tb) = Some (get id tb).
+  Proof. intros m name tb id _ Hid. apply lookup_reindex. exact Hid. Qed.
+End Statement.
+
+(* the decimal layer under ids, counts and connectivity *)
 Theorem C04_decimal_roundtrip : forall z, parse_Z (print_Z z) = Some z.
 Proof. exact parse_print_Z. Qed.
+
+(* The writer of the unchanged tree binds rows by position.  With that binding
+   the full statement is false: witness (elements stored as 30, 10; the
+   variable stored as 10, 30). *)
+Definition positional : wcfg := {| nodal_by_id := false; elemental_by_id := false |}.
+Definition witness : mesh str :=
+  Build_mesh
+    [(1%Z, [S "0.0"]); (2%Z, [S "1.0"])]
+    [(S "line", [(30%Z, [1%Z; 2%Z]); (10%Z, [2%Z; 1%Z])])]
+    []
+    [Build_evar (S "p") true [(S "unknown", [(10%Z, [S "10.0"]); (30%Z, [S "30.0"])])]].
+
+Theorem C04_ucd_roundtrip_positional_refuted :
+  exists m : mesh str,
+    wf str element_types m = true
+    /\ roundtrip str tprint tparse element_types positional m
+       <> Ok (first_order str element_types m).
+Proof.
+  exists witness. split; [vm_compute; reflexivity|].
+  intros H.
+  assert (model_roundtrip_ok element_types positional witness = true) as E.
+  { unfold model_roundtrip_ok. rewrite H. unfold res_agree.
+    assert (forall u, ucd_eqb u u = true) as R.
+    { intros u. unfold ucd_eqb, named_eqb, table_eqb, row_eqb.
+      assert (forall X (e : X -> X -> bool), (forall x, e x x = true) ->
+                forall l, list_eqb e l l = true) as L.
+      { intros X e He. induction l; simpl; [reflexivity|]. rewrite He, IHl. reflexivity. }
+      rewrite !L; try reflexivity; intros; rewrite ?Z.eqb_refl, ?str_eqb_refl, ?L;
+        try reflexivity; intros; rewrite ?Z.eqb_refl, ?str_eqb_refl, ?L; try reflexivity;
+        intros; try apply str_eqb_refl; try apply Z.eqb_refl. }
+    apply R. }
+  vm_compute in E. discriminate E.
+Qed.
+
+(* non-vacuity: a mixed mesh with interleaved ids, tet2, nodal and elemental
+   variables satisfies wf and aligned *)
+Definition example : mesh str :=
+  Build_mesh
+    [(5%Z, [S "0.0"; S "-0.0"; S "NaN"]); (3%Z, [S "1e+308"; S "5e-324"; S "0.1"]);
+     (9%Z, [S "0.0"; S "1.0"; S "0.0"]); (1%Z, [S "0.0"; S "0.0"; S "1.0"])]
+    [(S "tet2", [(30%Z, [5%Z; 3%Z; 9%Z; 1%Z; 5%Z; 3%Z; 9%Z; 1%Z; 5%Z; 3%Z])]);
+     (S "tri", [(20%Z, [5%Z; 3%Z; 9%Z]); (40%Z, [3%Z; 9%Z; 1%Z])])]
+    [Build_nvar (S "NODE") true
+       [(5%Z, [S "0.0"; S "-0.0"; S "NaN"]); (3%Z, [S "1e+308"; S "5e-324"; S "0.1"]);
+        (9%Z, [S "0.0"; S "1.0"; S "0.0"]); (1%Z, [S "0.0"; S "0.0"; S "1.0"])];
+     Build_nvar (S "t") true [(5%Z, [S "1.5"]); (3%Z, [S "2.5"]); (9%Z, [S "inf"]); (1%Z, [S "-inf"])];
+     Build_nvar (S "series") false []]
+    [Build_evar (S "p q") true
+       [(S "tri", [(40%Z, [S "4.0"; S "4.5"]); (20%Z, [S "2.0"; S "2.5"])]);
+        (S "tet2", [(30%Z, [S "3.0"; S "3.5"])])]].
+
+Theorem C04_example_wf :
+  wf str element_types example = true /\ aligned str element_types example = true
+  /\ model_roundtrip_ok element_types positional example = true.
+Proof. vm_compute. repeat split. Qed.
+
+Print Assumptions C04_ucd_roundtrip.
+Print Assumptions C04_ucd_roundtrip_aligned.
+Print Assumptions C04_ucd_roundtrip_positional_refuted.
